@@ -123,29 +123,30 @@ let rec encodable (o : ov) : bool =
   | OMap (len, ents) -> int_of_z len = List.length ents && List.for_all (fun (_, x) -> encodable x) ents
 
 (* ------------------------------------------------------------------ quirks *)
-let quirk_table : (string * (quirks -> quirks)) list = [
-  "dup_field", (fun q -> { q with q_dup_field = false });
-  "dup_mapkey", (fun q -> { q with q_dup_mapkey = false });
-  "union_two", (fun q -> { q with q_union_two = false });
-  "rename_alias", (fun q -> { q with q_rename_alias = false });
-  "member_alias", (fun q -> { q with q_member_alias = false });
-  "listpairs_dup", (fun q -> { q with q_listpairs_dup = false });
-  "listpairs_short", (fun q -> { q with q_listpairs_short = false });
-  "listpairs_unknown_panic", (fun q -> { q with q_listpairs_unknown_panic = false });
-  "listpairs_iter_index", (fun q -> { q with q_listpairs_iter_index = false });
-  "enum_name_alias", (fun q -> { q with q_enum_name_alias = false });
-  "enum_type_unchecked", (fun q -> { q with q_enum_type_unchecked = false });
-  "kinded_enum_kind", (fun q -> { q with q_kinded_enum_kind = false });
-  "kinded_len", (fun q -> { q with q_kinded_len = false });
-  "nullable_sum_panic", (fun q -> { q with q_nullable_sum_panic = false });
-  "int_narrow", (fun q -> { q with q_int_narrow = false });
-  "union_any", (fun q -> { q with q_union_any = false });
+let quirk_table : (string * (quirks -> bool -> quirks)) list = [
+  "dup_field", (fun q b -> { q with q_dup_field = b });
+  "dup_mapkey", (fun q b -> { q with q_dup_mapkey = b });
+  "union_two", (fun q b -> { q with q_union_two = b });
+  "rename_alias", (fun q b -> { q with q_rename_alias = b });
+  "member_alias", (fun q b -> { q with q_member_alias = b });
+  "listpairs_dup", (fun q b -> { q with q_listpairs_dup = b });
+  "listpairs_short", (fun q b -> { q with q_listpairs_short = b });
+  "listpairs_unknown_panic", (fun q b -> { q with q_listpairs_unknown_panic = b });
+  "listpairs_iter_index", (fun q b -> { q with q_listpairs_iter_index = b });
+  "enum_name_alias", (fun q b -> { q with q_enum_name_alias = b });
+  "enum_type_unchecked", (fun q b -> { q with q_enum_type_unchecked = b });
+  "kinded_enum_kind", (fun q b -> { q with q_kinded_enum_kind = b });
+  "kinded_len", (fun q b -> { q with q_kinded_len = b });
+  "nullable_sum_panic", (fun q b -> { q with q_nullable_sum_panic = b });
+  "int_narrow", (fun q b -> { q with q_int_narrow = b });
+  "union_any", (fun q b -> { q with q_union_any = b });
 ]
 
 (* deviations of the generated code *)
-let gen_quirk_table : (string * (quirks -> quirks)) list = [
-  "gen_tuple_missing", (fun q -> { q with qg_tuple_missing = false });
-  "gen_nullable_kinded_null", (fun q -> { q with qg_nullable_kinded_null = false });
+let gen_quirk_table : (string * (quirks -> bool -> quirks)) list = [
+  "gen_tuple_missing", (fun q b -> { q with qg_tuple_missing = b });
+  "gen_nullable_kinded_null", (fun q b -> { q with qg_nullable_kinded_null = b });
+  "gen_stringprefix_split", (fun q b -> { q with qg_stringprefix_split = b });
 ]
 
 (* ------------------------------------------------------------------ model observations *)
@@ -224,16 +225,19 @@ let spec_val (t : ty) (d : dm) : string option =
 (* classes of a deviation: the quirks whose removal changes the pinned model's prediction; only
    meaningful when the implementation does what the pinned model says *)
 let relevant (f : quirks -> string) : string list =
-  let base = f pinned in
-  List.filter_map (fun (name, off) -> if f (off pinned) <> base then Some name else None) quirk_table
+  let base = f pinned and base0 = f qoff in
+  List.filter_map (fun (name, set) ->
+      if f (set pinned false) <> base || f (set qoff true) <> base0 then Some name else None) quirk_table
 
 let outcome (s : string) : string =
   if String.length s >= 2 && String.sub s 0 2 = "ok" then "ok" else s
 
 (* the generated code's deviations are modelled up to the outcome (ok / err / panic) *)
 let relevant_gen (f : quirks -> string) : string list =
-  let base = outcome (f pinned) in
-  List.filter_map (fun (name, off) -> if outcome (f (off pinned)) <> base then Some name else None) gen_quirk_table
+  let base = outcome (f pinned) and base0 = outcome (f qoff) in
+  List.filter_map (fun (name, set) ->
+      if outcome (f (set pinned false)) <> base || outcome (f (set qoff true)) <> base0 then Some name else None)
+    gen_quirk_table
 
 let split_bar s = String.split_on_char '|' s
 
